@@ -184,6 +184,11 @@ def load_cached(facts_dir):
         except Exception:
             pass
     ws = Workspace.load(facts_dir)
+    # never cache a directory whose analysis is still being written (the build
+    # drops a `.complete` marker at the end): an ad-hoc reader must not poison
+    # the cache the checks will use for this tree
+    if not os.path.exists(os.path.join(facts_dir, ".complete")):
+        return ws
     tmp = pk + ".tmp%d" % os.getpid()
     with open(tmp, "wb") as fh:
         pickle.dump(ws, fh, protocol=pickle.HIGHEST_PROTOCOL)
